@@ -61,7 +61,7 @@ checks = {
                 note="trusted base: gosched interleaving granularity; scripted query / tx / cluster / pricing clients (the real pricing strategies are not in the loop); 'released' / 'closed' = the call was made"),
     "C14": dict(engine="gosched", cat="model_checking", tech="stateless exhaustive exploration (delay-bounded budget ladder, early-injection budget, history-hash pruning) of the real instrumented cluster service + deploymentManager + hostnameService + inventoryService under the controlled scheduler with a scripted cluster client",
                 text="For 8 (quick) / 11 (thorough) configurations (1-3 manifest updates, lease closed, deploy / teardown finishing ok or with errors, shutdown) within the stated budgets: never two cluster operations for one lease overlapping, no Deploy started after the teardown request, after a close TeardownLease follows the last deploy and reservation and hostnames are released, absent close/failure the last Deploy carried the latest manifest, no INVALID STATE panic, termination after shutdown.", ref="6 C14",
-                note="trusted base: gosched interleaving granularity; scripted cluster / chain clients; the teardown obligation is evaluated for histories without a failed deploy (a failed deploy followed by no teardown is reported as an observation, as stated in DESIGN section 6)"),
+                note="trusted base: gosched interleaving granularity; scripted cluster / chain clients; exempt from the teardown clause are only histories in which a deploy failed before the manager accepted any teardown request (the manager has left its loop; counted as an observation)"),
 }
 
 m = {
